@@ -178,6 +178,28 @@ def check(ctx):
                       detail="found entry is removed (swap_remove/retain) before the next iteration")
             ctx.check(p is None and bool(starts), RP, "C20/state-predicate/other-states-removed", task.loc,
                       reason="a server in another state (Shutdown, Unhealthy, Reserved, …) is not looked up for removal", detail="other states: entry with that identifier is removed")
+    # upsert replaces in place: when an entry with that identifier is found it is overwritten by the new target on every path
+    for b2 in task.blocks:
+        if b2.cleanup or b2.term.kind != "switch" or task.is_noise(b2.term):
+            continue
+        e2, ls2 = an.switch_info(b2.idx, opt=True)
+        x2 = flow.strip(e2)
+        if x2[0] == "call" and flow.short(x2[1]).endswith("Iterator::find") and any("Some" in l for l in ls2.values()):
+            some_t = [tb for tb, l in ls2.items() if "Some" in l]
+            writes = []
+            for wb, wi, ws in an.mem_writes:
+                if task.is_noise(ws):
+                    continue
+                v = an.rvalue_expr(ws.rv, (wb, wi), 0)
+                if [c for c in calls_in(v) if flow.short(c[1]).endswith(("TryInto::try_into", "TryFrom::try_from"))] and g.must_pass(wb, cut_edges=[(b2.idx, t) for t in some_t])[0]:
+                    writes.append(wb)
+            starts = []
+            for t in some_t:
+                starts += g.nodes_of_bb(t)
+            p = g.path(starts, [loop_head], cut_nodes=writes) if (loop_head is not None and starts) else None
+            ctx.check(bool(writes) and p is None, RP, "C20/state-predicate/upsert-overwrites-found-entry", site(task, b2.idx),
+                      reason="a cached entry with the same identifier is not always replaced by the newly observed server (some path keeps the old address/metadata)",
+                      detail="found entry := new target on every path")
     # removal / replacement are by identifier
     for c in ctx.prog.children(task.key):
         if c.kind != "Closure":
